@@ -16,6 +16,7 @@ from gen import c16 as G
 
 KLASS = [
     ("peerinfo-transfer-counter", "dissimilar-transfer-leak"),
+    ("stop-not-zero:px", "refused-handshake-pex-leak"),
 ]
 
 
@@ -45,7 +46,7 @@ def model_input(case, iline, layouts=None):
     kv = dict(t.split("=", 1) for t in case.split())
     ev = iline.split(" ")[0]
     ev = ev[3:] if ev.startswith("ev=") else "-"
-    np_ = layouts[kv["sc"]]["peers"] if layouts else {"dis": 2, "multi": 3, "hs3": 4, "full": 3}.get(kv["sc"], 1)
+    np_ = layouts[kv["sc"]]["peers"] if layouts else {"dis": 2, "multi": 3, "hs3": 4, "full": 3, "fullx": 3}.get(kv["sc"], 1)
     return "seed=%d f=%s tgt=%s np=%d | %s" % (1 if kv["sc"] in G.SEEDING else 0, kv["f"], kv.get("tgt", "0"), np_, ev.rstrip(","))
 
 
